@@ -7,16 +7,16 @@ CHECKS = {}
 def check(pid, technique, text, note, design):
     CHECKS[pid] = dict(technique=technique, text=text, note=note, design=design)
 
-check('C13', 'property-based testing: Hypothesis-driven generated pairs + exhaustive bounded sweep against a structural model of category values',
+check('C13', 'property-based testing: Hypothesis-driven generated pairs + exhaustive bounded sweep against a structural model of category values; thorough tier adds an atheris (libFuzzer) coverage-guided campaign over the same byte-tape builder',
       'Exploration: ==, hash, dict/set lookup, string comparison, ^ and clear_features are compared with an independent nested-tuple model on every ordered pair of values with <=1 slash (reduced alphabets, both feature systems; exhaustive) and on generated deep pairs, single-edit mutants, rebuilt copies and erase sets. Right level because the property is a set of algebraic laws over a value type with an executable reference model.',
       'Trusted: Hypothesis, CPython; the model reads categories by field access only. Values mixing the two feature systems inside one category are not generated.',
       'DESIGN.md section 7 C13')
 
-check('C05', 'property-based testing: value->text->value round trip and text-variant metamorphic relation (Hypothesis tapes + exhaustive bounded enumeration + sweep of every shipped category string), with an independent reader as second oracle',
+check('C05', 'property-based testing: value->text->value round trip and text-variant metamorphic relation (Hypothesis tapes + exhaustive bounded enumeration + sweep of every shipped category string), with an independent reader as second oracle; thorough tier adds an atheris (libFuzzer) coverage-guided campaign over the same byte-tape builder',
       'Exploration: every generated category value (both feature systems, slashes / \\ |, exhaustive up to 2 slashes over a reduced alphabet, random to depth 4) is printed and parsed back; texts with redundant round/angle brackets and blanks must read to the same value and re-print canonically; texts with one needed bracket pair removed must be rejected; all ~104k category string occurrences of the shipped model files and tests/cats*.txt round-trip. A round-trip/metamorphic oracle is exactly what the statement asks for.',
       'Trusted: the harness reader of the documented text grammar (cross-checked against Category.parse on every variant). Blanks are ASCII spaces between tokens.',
       'DESIGN.md section 7 C05')
-check('C06', 'property-based testing against a reference model: statement-level matcher over category models vs Unification, Hypothesis-generated pattern instantiations with perturbations',
+check('C06', 'property-based testing against a reference model: statement-level matcher over category models vs Unification, Hypothesis-generated pattern instantiations with perturbations; thorough tier adds an atheris coverage-guided campaign',
       'Exploration: for every pattern pair the live grammars construct (recorded at run time) and bounded random pattern pairs, inputs are built by exact instantiation plus 0-2 perturbations or at random; the returned verdict is compared with a matcher transcribed from the statement, bindings are validated, post-failure reads and second calls must raise.',
       'Three-part features with variables on both sides in different slots are not fixed by the statement: counted, not judged. Pattern variables occur at most once per side.',
       'DESIGN.md section 7 C06')
@@ -38,7 +38,7 @@ PARSER_NOTE = 'parsing.pyx is executed through the pyxlite translator (Cython se
 check('C01', 'property-based testing with a reference model: Hypothesis-generated sentences/grammars vs an exhaustive chart dynamic program; agenda pops observed through the guarded hook',
       'Exploration: for head-uniform synthetic tables and the real en/ja rule functions, the first returned parse must score exactly the optimum of an independent O(n^3) chart DP over the beam-admitted tags (placeholder iff infeasible), and the priorities of all popped agenda items (hook) must be non-increasing with a zero outside estimate on the goal.',
       PARSER_NOTE, 'DESIGN.md section 7 C01')
-check('C02', 'property-based testing with a validity predicate over every returned tree (Hypothesis-generated sentences, synthetic tables of all head modes and real grammars, n-best 1-6)',
+check('C02', 'property-based testing with a validity predicate over every returned tree (Hypothesis-generated sentences, synthetic tables of all head modes and real grammars, n-best 1-6) + fault injection-free sanitizer campaign (ASan/UBSan build of the shim in a child interpreter)',
       'Exploration: every tree returned by depccg.parsing.run must have one leaf per token in order carrying that token and an admitted supertag, every node licensed by the grammar callback, an allowed root and no unary root for n>1; anything else must be exactly the placeholder; out-of-range rule indices / missing cache keys / swallowed finalizer exceptions are surfaced by the shim as faults.',
       PARSER_NOTE, 'DESIGN.md section 7 C02')
 check('C09', 'property-based testing: score recomputed from every returned tree by the statement\'s rule (differential oracle), Hypothesis-generated inputs',
